@@ -160,7 +160,9 @@ def run_groups(ctx, groups, tag):
         if op in ('>', '>=', '<', '<=', '==') and not some and single_comparable(doc, q, rhs):
             if a in INV and na != INV[a]:
                 ctx.failing('single comparable value: `%s` is %s but `not %s` is %s' % (A, a, A, na), dict(info, cls='single-value-flip'), found=True)
-        if op == 'in' and not some and rhs and rhs.startswith('[') and q in doc and a in INV and na != INV[a]:
+        if op == 'in' and not some and rhs and rhs.startswith('[') and q in doc and a in INV and na != INV[a] \
+           and (not isinstance(doc[q], list) or rhs.startswith('[[')):
+            # (a list on the left against a FLAT list is compared element by element, and so is its negation: no flip there)
             # one value on the left (a scalar, or a whole list as ONE candidate member) against a literal list: membership is decided, its negation is the opposite
             ctx.failing('membership of one value in a literal list: `%s` is %s but `not %s` is %s' % (A, a, A, na), dict(info, cls='membership-flip'), found=True)
         if a in ('PASS', 'FAIL') and na == a and op in UNARY and q in doc and not isinstance(doc[q], list) and op != 'empty':
